@@ -190,6 +190,8 @@ def run(ctx):
         prows = run_poller(ctx)
     if os.environ.get("VERIF_C10_SKIP_COQ") == "1":
         return
+    # other checks may have regenerated gen/Extracted.vo while the harness ran: bring the glue up to date (no-op otherwise)
+    core.coq_make(["model/EvmWatcherCase.vo"])
     if prows:
         pok = "Definition ok (c : Z * list (option Z * (Z * list (Z * bool) * bool))) : bool := let '(l, st) := c in check_polls l st."
         pbad = core.run_cases(ctx, "cases_C10p", prows, HDR, "Z * list (option Z * (Z * list (Z * bool) * bool))", gpoll, pok, nshards=4)
